@@ -26,7 +26,8 @@ def filler(k, sz):
     return stmt("RMB", "rmb", label="L%d" % k, expr=ex(num(sz)))
 
 
-def sizing_case(items):
+def sizing_case(items, rnd=None):
+    """rnd given: every label,PCR item is written as the indirect form [label,PCR] with probability 1/2 (same sizes, another branch of the operand translation)"""
     prog = []
     for k, it in enumerate(items, 1):
         if it["k"] == "fix" and it["mx"] < it["sz"]:
@@ -34,7 +35,7 @@ def sizing_case(items):
         elif it["k"] == "fix":
             prog.append(filler(k, it["sz"]))
         else:
-            prog.append(stmt("LDA" if it["base"] == 2 else "LDY", "pcr", label="L%d" % k, expr=ex(sym("L%d" % it["tgt"]))))
+            prog.append(stmt("LDA" if it["base"] == 2 else "LDY", "pcr", label="L%d" % k, expr=ex(sym("L%d" % it["tgt"])), ind=bool(rnd and rnd.random() < 0.5)))
     return Case(prog, tag="sizing")
 
 
@@ -69,7 +70,7 @@ def sizing_replay(ctx, thorough, rnd):
             items[0] = {"k": "pcr", "sz": 0, "tgt": n, "base": 2, "mx": 0}
         return items
     recs = recs + [{"prog": rand_items(), "final": []} for _ in range(40000 if thorough else 3000)]
-    cases = [sizing_case(r["prog"]) for r in recs]
+    cases = [sizing_case(r["prog"], rnd) for r in recs]
     traces, verd, extras = asmcheck.run_suite(ctx, "sizing-replay", cases, hooks=True)
     # hook events of the real loop judged by the AsmSizing step function; final sizes compared with the spec's
     t0 = time.time()
